@@ -19,6 +19,9 @@ from pathlib import Path
 
 VERIF = Path(__file__).resolve().parent.parent
 REPO = os.environ.get("VERIF_REPO", "/repo")
+# VERIF_OUT redirects evidence/ and replays/ (used when checks are pointed at a mutated scratch tree so
+# that the committed evidence is never overwritten by a mutant run)
+OUT = Path(os.environ.get("VERIF_OUT", str(VERIF)))
 NPROC = int(os.environ.get("VERIF_NPROC", "16"))
 MAX_VIOLATIONS_KEPT = 40          # per worker
 MAX_REPLAYS_WRITTEN = 8
@@ -218,8 +221,8 @@ def write_evidence(ctx, level, nviol_unlisted):
         "violations": int(nviol_unlisted),
         "repo": os.path.realpath(REPO),
     }
-    d = VERIF / "evidence"
-    d.mkdir(exist_ok=True)
+    d = OUT / "evidence"
+    d.mkdir(parents=True, exist_ok=True)
     tmp = d / f".{ctx.pid}.json.tmp"
     tmp.write_text(json.dumps(ev, indent=1, default=str))
     os.replace(tmp, d / f"{ctx.pid}.json")
@@ -243,7 +246,7 @@ def finish(ctx, level):
             unlisted.append(v)
     for fid, (f, v) in listed.items():
         print(f"KNOWN-FINDING: property={ctx.pid} {f['what']} [{fid}]")
-    rdir = VERIF / "replays" / ctx.pid
+    rdir = OUT / "replays" / ctx.pid
     seen_sites = set()
     nwritten = 0
     for v in unlisted:
